@@ -17,6 +17,7 @@ typedef struct { int kind; size_t left; } lv_ev_t;
 static lv_ev_t lv_sched[LV_MAXEV];
 static int lv_nsched = 0, lv_sp = 0, lv_ctl_fd = -1;
 static int lv_glue_error = 0;
+static off_t lv_data_start = -1;   /* offset of the first scheduled byte in a regular file, -1 for pipes */
 
 ssize_t __real_read(int fd, void *buf, size_t n);
 
@@ -25,6 +26,15 @@ static ssize_t lv_sched_read(int fd, void *buf, size_t n)
     lv_ev_t *e;
     size_t give, got = 0;
 
+    if (lv_data_start > 0) {
+        /* stdio repositions a stream by seeking to a block boundary and reading forward: bytes in
+         * front of the case's start offset are not part of the schedule */
+        off_t cur = lseek(fd, 0, SEEK_CUR);
+        if (cur >= 0 && cur < lv_data_start) {
+            size_t k = (size_t) (lv_data_start - cur);
+            return __real_read(fd, buf, (n < k) ? n : k);
+        }
+    }
     if (lv_sp >= lv_nsched) return 0;
     e = &lv_sched[lv_sp];
     switch (e->kind) {
@@ -176,6 +186,7 @@ static spif_bool_t init_from_desc(spif_mbuff_t m, int use_fp, char *args)
     regular = (f[0][0] == 'R');
     wrapped = (f[1][0] == 'w');
     if (regular) pos = (size_t) atol(f[0] + 1);
+    lv_data_start = regular ? (off_t) pos : (off_t) -1;
     parse_sched(f[2], &data, &total);
     workdir_init();
     if (regular) {
